@@ -122,6 +122,10 @@ def postcondition(r, user, status, before, after):
             if m != "PROPPATCH" and (before[p]["tag"], before[p]["props"]) != (after[p]["tag"], after[p]["props"]):
                 return "properties of /%s changed" % "/".join(p)
         return None
+    for p, e in after.items():
+        uids = [i["uid"] for i in e["items"]]
+        if len(uids) != len(set(uids)) and (p not in before or sorted(uids) != sorted(i["uid"] for i in before[p]["items"])):
+            return "collection /%s now holds two objects with one UID: %s" % ("/".join(p), sorted(uids))
     if not ok or m in ("GET", "PROPFIND", "MULTIGET"):
         return unchanged_except()
     if m == "PUT" and target in after:
@@ -187,6 +191,14 @@ def postcondition(r, user, status, before, after):
             return "the new collection lacks the properties %s set by the request" % missing
         return unchanged_except(paths_prefix=(target,))
     if m == "PROPPATCH":
+        if target in after:
+            have = dict(tuple(x) for x in after[target]["props"])
+            for k2, v2 in r.get("set", []):
+                if k2 not in r.get("remove", []) and have.get(k2) != v2 and not r.get("order") is None:
+                    return "property %s is %r after a PROPPATCH whose last instruction for it sets %r" % (k2, have.get(k2), v2)
+            for k2 in r.get("remove", []):
+                if r.get("order") and k2 in have:
+                    return "property %s is still %r after a PROPPATCH whose last instruction for it removes it" % (k2, have[k2])
         return unchanged_except()
     return None
 
